@@ -7,6 +7,8 @@ NAME="$1"; shift
 WORK="$(mktemp -d /tmp/vx_replay_XXXXXX)"
 # build cache (rebuilt from $REPO's current sources by cargo on every run; safe to delete)
 CACHE="$HERE/../.cache/replay_target_$NAME"
+# a scratch copy of the repository (self-tests, seeded changes in worktrees) gets a throw-away build directory: its path changes every time
+[ "$REPO" = "/repo" ] || CACHE="$WORK/target"
 mkdir -p "$CACHE"
 trap 'rm -rf "$WORK"' EXIT
 cp -r "$HERE/$NAME/src" "$WORK/src"
